@@ -319,15 +319,19 @@ def ob_error_discipline(run, oid):
 
 
 def check(run):
+    from . import detectors as _DL
+    _DL.ob_loop_exits(run, "O10.6", ['consensus', 'repair::', 'shredder'], 'a message loop or per-element handler that can be left early stops serving')
     ob_panic_closure(run, "O10.1")
     ob_window_arith(run, "O10.1b")
     from . import C13
     C13.ob_last_slice_prune(run, "O10.1c")
     from . import C14
     C14.ob_create_proof_guard(run, "O10.1d")
+    C14.ob_request_identifier(run, "O10.1i")
     from . import C11
     C11.ob_validated_set(run, "O10.1e")
     C11.ob_coder_reset(run, "O10.1f")
+    C11.ob_restored_size_bound(run, "O10.1h")
     from . import C05
     C05.ob_stale_events(run, "O10.1g")
     ob_validate_then_use(run, "O10.2")
